@@ -246,6 +246,11 @@ class _Expr(ast.NodeTransformer):
                 return node
             if f.id == 'bool' and len(node.args) == 1 and not node.keywords and _looks_boolean(node.args[0]):
                 return node.args[0]
+            # dict(list(X)) -> dict(X)
+            if f.id in ('dict', 'set', 'frozenset', 'sorted', 'tuple') and len(node.args) == 1 and not (f.id == 'dict' and node.keywords) and \
+                    isinstance(node.args[0], ast.Call) and isinstance(node.args[0].func, ast.Name) and node.args[0].func.id in ('list', 'tuple') and \
+                    len(node.args[0].args) == 1 and not node.args[0].keywords:
+                node.args = [node.args[0].args[0]]
             if f.id == 'list' and not node.args and not node.keywords:
                 return at(ast.List(elts=[], ctx=ast.Load()), node)
             if f.id == 'dict' and not node.args and not node.keywords:
@@ -306,6 +311,36 @@ class _Expr(ast.NodeTransformer):
             else:
                 kws.append(k)
         node.args, node.keywords = args, kws
+        return node
+
+    def visit_comprehension(self, node):
+        self.generic_visit(node)
+        # for x in list(X) -> for x in X   (iterating a copy of an iterable is iterating it)
+        it = node.iter
+        if isinstance(it, ast.Call) and isinstance(it.func, ast.Name) and it.func.id in ('list', 'tuple', 'iter') and len(it.args) == 1 and not it.keywords:
+            node.iter = it.args[0]
+        return node
+
+    def visit_DictComp(self, node):
+        self.generic_visit(node)
+        # {a: b for a, b in zip(A, B)} -> dict(zip(A, B))   ;   {b: a for a, b in zip(A, B)} -> dict(zip(B, A))
+        if len(node.generators) == 1 and not node.generators[0].ifs:
+            g = node.generators[0]
+            if isinstance(g.target, ast.Tuple) and len(g.target.elts) == 2 and all(isinstance(x, ast.Name) for x in g.target.elts) and \
+                    isinstance(g.iter, ast.Call) and isinstance(g.iter.func, ast.Name) and g.iter.func.id == 'zip' and len(g.iter.args) == 2 and \
+                    not g.iter.keywords and isinstance(node.key, ast.Name) and isinstance(node.value, ast.Name):
+                a, b = g.target.elts[0].id, g.target.elts[1].id
+                A, B = g.iter.args
+                if (node.key.id, node.value.id) == (a, b):
+                    return at(ast.Call(func=ast.Name(id='dict', ctx=ast.Load()), args=[g.iter], keywords=[]), node)
+                if (node.key.id, node.value.id) == (b, a) and is_pure(A) and is_pure(B):
+                    z = at(ast.Call(func=ast.Name(id='zip', ctx=ast.Load()), args=[B, A], keywords=[]), g.iter)
+                    return at(ast.Call(func=ast.Name(id='dict', ctx=ast.Load()), args=[z], keywords=[]), node)
+            # {k: v for k, v in X} -> dict(X)
+            if isinstance(g.target, ast.Tuple) and len(g.target.elts) == 2 and all(isinstance(x, ast.Name) for x in g.target.elts) and \
+                    isinstance(node.key, ast.Name) and isinstance(node.value, ast.Name) and \
+                    (node.key.id, node.value.id) == (g.target.elts[0].id, g.target.elts[1].id):
+                return at(ast.Call(func=ast.Name(id='dict', ctx=ast.Load()), args=[g.iter], keywords=[]), node)
         return node
 
     def visit_IfExp(self, node):
@@ -1650,8 +1685,11 @@ class FunctionNormalizer(object):
                         dump(n.value).replace('Store()', 'Load()') in sub_bases or
                         (depends_on_content and dump(n.value).replace('Store()', 'Load()') in subs)):
                     return True
-                if isinstance(n, ast.Call) and isinstance(n.func, ast.Name) and n.func.id in ('setattr', 'delattr') and attrs:
-                    return True
+                if isinstance(n, ast.Call) and isinstance(n.func, ast.Name) and n.func.id in ('setattr', 'delattr') and attrs and n.args:
+                    # setattr(X, ..) re-binds an attribute of X: it matters only when the value reads an attribute of that same X
+                    bases = {dump(x.value) for x in ast.walk(value) if isinstance(x, ast.Attribute)}
+                    if dump(n.args[0]) in bases:
+                        return True
                 if depends_on_content and isinstance(n, ast.Call) and isinstance(n.func, ast.Attribute) and \
                         n.func.attr in ('append', 'add', 'remove', 'pop', 'insert', 'extend', 'update', 'clear', 'discard', 'setdefault', 'popitem', 'sort', 'reverse') \
                         and dump(n.func.value) in subs:
@@ -1823,7 +1861,7 @@ class FunctionNormalizer(object):
             for c in ast.iter_child_nodes(n):
                 if c is use:
                     parent = n
-        if isinstance(parent, ast.Call) and isinstance(parent.func, ast.Name) and parent.func.id in ('len', 'bool', 'sorted', 'list', 'tuple', 'set') and use in parent.args:
+        if isinstance(parent, ast.Call) and isinstance(parent.func, ast.Name) and parent.func.id in ('len', 'bool', 'sorted', 'list', 'tuple', 'set', 'dict', 'frozenset', 'zip', 'enumerate', 'iter', 'any', 'all', 'sum', 'min', 'max') and use in parent.args:
             return True
         if isinstance(parent, (ast.BoolOp, ast.If, ast.While, ast.IfExp)) or (isinstance(parent, ast.UnaryOp) and isinstance(parent.op, ast.Not)):
             return True
